@@ -23,7 +23,10 @@ RULE = ('The namespace object is registered with a recorder whose methods '
         '(inspect.signature().bind). Every cell of the space above is '
         'executed; Hypothesis additionally samples cells with generated '
         'registration namespaces, explicit namespace overrides and values '
-        'including falsy-but-meaningful ones (0, "", [], False, 0.0, None). '
+        'including falsy-but-meaningful ones (0, "", [], False, 0.0, None), '
+        'objects registered for the catch-all namespace, and objects with a '
+        'history (an event dispatched to them, an earlier helper call with an '
+        'explicit namespace) before the judged call. '
         'Oracle: the same-named method is called exactly once; every '
         'argument the caller gave arrives unchanged at the parameter of the '
         'same name; an omitted namespace arrives as the registration '
@@ -114,7 +117,12 @@ def strategy(tier):
         st.dictionaries(st.text(max_size=2), st.integers(), max_size=2))
     return st.fixed_dictionaries({
         'cell': st.integers(0, len(cl) - 1),
-        'reg': st.sampled_from(['/', '/reg', '/a/b', '/é', None]),
+        'reg': st.sampled_from(['/', '/reg', '/a/b', '/é', None, '*']),
+        # what happened to the namespace object before the judged call: an
+        # event dispatched to it, or an earlier helper call with an explicit
+        # namespace (nothing of it may stick)
+        'history': st.lists(st.sampled_from(['event', 'helper_ns']),
+                            max_size=2),
         'ns_override': st.sampled_from(['/other', '/', '/reg', '/x y']),
         'values': st.lists(val, min_size=8, max_size=8)}).map(
         lambda d: _norm(d, cl))
@@ -127,6 +135,7 @@ def _norm(d, cl):
         vals[p] = d['ns_override'] if p == 'namespace' else d['values'][i]
     c['vals'] = vals
     c['reg'] = d['reg']
+    c['history'] = d.get('history', [])
     return c
 
 
@@ -163,7 +172,16 @@ def check_case(case):
     recorder = Recorder()
     nscls = getattr(socketio, nscls_name)
     reg = case['reg']
-    ns = nscls(reg) if reg is not None else nscls()
+    evlog = []
+    if aio:
+        class NS(nscls):
+            async def on_my_event(self, *a):
+                evlog.append(a)
+    else:
+        class NS(nscls):
+            def on_my_event(self, *a):
+                evlog.append(a)
+    ns = NS(reg) if reg is not None else NS()
     reg_eff = reg or '/'
     if target_name.endswith('Server'):
         ns._set_server(recorder)
@@ -172,6 +190,27 @@ def check_case(case):
     vals = dict(case['vals'])
     given = list(case['given'])
     reqvals = {p: 'r_' + p for p in req}
+
+    def settle(r):
+        if inspect.isawaitable(r):
+            lp = DetLoop()
+            try:
+                return lp.run(r)
+            finally:
+                lp.shutdown()
+        return r
+    for hst in case.get('history', []):
+        if hst == 'event':
+            a = ('sid-1', 1) if target_name.endswith('Server') else (1,)
+            if reg == '*':
+                a = ('/evns',) + a
+            settle(ns.trigger_event('my_event', *a))
+            if len(evlog) < 1:
+                raise Violation('history-event-not-dispatched', repr(a))
+        elif 'namespace' in opt:
+            settle(getattr(ns, helper)(*[reqvals[p] for p in req],
+                                       namespace='/prev'))
+    del calls[:]
     pos = [reqvals[p] for p in req]
     kw = {}
     if case['style'] == 'pos':
@@ -246,6 +285,8 @@ def check_case(case):
                 for p, v in vals.items())
     return {'nscls': nscls_name, 'helper': helper,
             'ngiven': len(given), 'explicit_falsy': falsy,
+            'history': len(case.get('history', [])),
+            'reg_star': reg == '*',
             'nontrivial': len(given) >= 2 or falsy or any(
                 v is None for p, v in vals.items() if p != 'namespace')}
 
